@@ -122,6 +122,20 @@ def op_event(tid, cls, p, op, arg, refs, history):
     return ev
 
 
+def safe_clone(cls, p, root_at, ops):
+    """a second object in the same state: a deep copy, or - when the object cannot be deep-copied (immutable shared
+    helpers, locks, weak references) - a new object taken through the same operations"""
+    try:
+        return D.clone(p)
+    except Exception:
+        ok, q = call_guard(cls.ctor, root_at)
+        if not ok:
+            raise core.MachineryError('cannot rebuild %s from %r' % (cls.name, root_at))
+        for op, arg in ops:
+            D.apply_op(q, op, arg)
+        return q
+
+
 def consistent_refusal(cls, p, op, ev):
     """A computation that raises is not a C07 violation when a freshly constructed object with the same attribute
     values refuses too (e.g. an implementation that rejects NFFT < N instead of cropping the data): C07 relates the
@@ -168,6 +182,7 @@ def walk_graph(chk, cls, dt, nodes, init, edges, rec, refs, rng, max_edges):
     rep = {}
     seen = set()
     hist = {}
+    root = {}
     queue = []
     for nid in init:
         st = nodes[nid]
@@ -179,6 +194,7 @@ def walk_graph(chk, cls, dt, nodes, init, edges, rec, refs, rng, max_edges):
         rep[nid] = p
         seen.add(nid)
         hist[nid] = []
+        root[nid] = at
         queue.append(nid)
     part = 'graph-%s-%s' % (cls.name, dt)
     n_edges = sum(len(v) for v in out.values())
@@ -197,7 +213,7 @@ def walk_graph(chk, cls, dt, nodes, init, edges, rec, refs, rng, max_edges):
                 arg['dt'] = dt
             if op == 'SetMaOrder' and cls.ma == (0,):
                 continue      # the class has no MA order (the model keeps a dummy 0)
-            o = D.clone(pu)
+            o = safe_clone(cls, pu, root[u], [(x[0], x[1]) for x in hist[u]])
             tid = rec.new_trace()
             h = hist[u]
             meta = {'cls': cls.name, 'dt': dt, 'path': h, 'op': [op, arg]}
@@ -217,7 +233,7 @@ def walk_graph(chk, cls, dt, nodes, init, edges, rec, refs, rng, max_edges):
                         chk.notes.append('MODEL-DRIFT %s %s after %s: model %r, object %r'
                                          % (cls.name, dt, lab, predicted_internal(nodes[v]), real_internal(o)))
             if op != 'ReadPsd' and not ev['err']:
-                o2 = D.clone(o)
+                o2 = safe_clone(cls, o, root[u], [(x[0], x[1]) for x in hist[u]] + [(op, arg)])
                 ev2 = op_event(tid, cls, o2, 'ReadPsd', 0, refs, [x[2] for x in h] + [pre, ev['post']])
                 if consistent_refusal(cls, o2, 'ReadPsd', ev2):
                     chk.count(part, 'consistent-refusals')
@@ -227,6 +243,7 @@ def walk_graph(chk, cls, dt, nodes, init, edges, rec, refs, rng, max_edges):
                 rep[v] = o
                 seen.add(v)
                 hist[v] = h + [(op, arg, ev.get('post'))]
+                root[v] = root[u]
                 queue.append(v)
         if u not in init:
             del rep[u]   # all outgoing edges done
